@@ -43,7 +43,7 @@ Definition skind_eqb (a b : skind) :=
   | SKBool, SKBool => true
   | SKInt, SKInt => true
   | SKCast x, SKCast y => x =? y
-  | SKEnum x, SKEnum y => zlist_eqb x y
+  | SKProxy, SKProxy => true
   | _, _ => false
   end.
 Definition sent_eqb (a b : sent) := Nat.eqb (s_depth a) (s_depth b) && skind_eqb (s_kind a) (s_kind b).
